@@ -2742,6 +2742,9 @@ class PerspConvex(Convex):
                  multiplier=1):
 
         super().__init__(affine_in, affine_out, xtype, sign, multiplier)
+        if isinstance(affine_scale, (Vars, Affine)):
+            if affine_scale.model is not affine_in.model:
+                raise ValueError('Models of operands mismatch.')
         self.affine_scale = affine_scale
 
     def __repr__(self):
@@ -4208,6 +4211,9 @@ class DecAffine(Affine):
             if x.size > 1:
                 raise ValueError('The expression of x must be a scalar')
 
+        if isinstance(x, (Vars, Affine)):
+            if self.model is not x.model:
+                raise ValueError('Models mismatch.')
         if isinstance(x, (DecVar, DecVarSub, DecAffine)):
             event_adapt = comb_set(event_adapt, x.event_adapt)
 
@@ -4218,6 +4224,9 @@ class DecAffine(Affine):
             if z.size > 1:
                 raise ValueError('The expression of z must be a scalar')
 
+        if isinstance(z, (Vars, Affine)):
+            if self.model is not z.model:
+                raise ValueError('Models mismatch.')
         if isinstance(z, (DecVar, DecVarSub, DecAffine)):
             event_adapt = comb_set(event_adapt, z.event_adapt)
 
